@@ -10,7 +10,7 @@ LEVEL = 'proof'
 def run(rep):
     # the unification family is verified in the plain term/store theory (smaller prelude: faster, more stable queries)
     fw.deductive(rep, [t for t in UNIFY_FAMILY if 'get_value' not in t], ['engine_terms'], ['terms.smt2'], timeout=25 if rep.tier == 'quick' else 60)
-    enginep.engine_deductive(rep, enginep.GEN_FUNS + enginep.ITER_CLASSES + ['engine.Answer.match', 'engine.YP.evaluate_bounded'])
+    enginep.engine_deductive(rep, enginep.GEN_FUNS + enginep.ITER_CLASSES + ['engine.Answer.match', 'engine.YP.evaluate_bounded', 'engine.YP.match_dynamic'])
     from . import syntactic
     syntactic.no_direct_cell_writes(rep)
     syntactic.template_discipline(rep)
@@ -22,6 +22,13 @@ def run(rep):
         fw.standin(rep, 's_c03.py', ['run', rep.seed, 1000 if q else 6000],
                    'fault enumeration: programs x abandonment point k (close / drop / consumer exception / raising predicate)',
                    'F1/F2/F3 programs, every k in 0..#answers; all variables created during the run inspected')
+    fw.standin(rep, 's_c03d.py', ['run', rep.seed, 0],
+               'enumerations of dynamic facts abandoned after k answers (close / drop / throw / once) leave the engine as it was: every probe '
+               'query answers as on a fresh engine with the same facts', '9 databases x 5 first queries x 4 ways x k <= 2 x 5 probes: exhaustive')
+    # a query abandoned inside evaluate_bounded (depth limit, exception in the projection function) while the caller keeps the generator
+    fw.standin(rep, 's_c17.py', ['run', rep.seed, 400 if q else 3000],
+               'queries cut short inside evaluate_bounded (depth limit, projection raising at answer k) with the generator still referenced: '
+               'no variable left bound, generator not left suspended', 'limits {60,100,200,400}; depth parameters up to 1000')
     fin = [r for r in rep.obligations if '.exit.' in r['name'] or 'discipline' in r['name'] or 'finalised' in r['name']]
     rep.notes.append('%d finalisation obligations: the semidet unify family is proved at store level on all three continuations of every '
                      'yield (resume, close, throw): exit store = resume store with exactly the generator\'s own footprint reset; the '
